@@ -1407,6 +1407,22 @@ class _Run:
                     return mk("iteradapt", (nm,), (a0, args[1]))
                 if name == "std::iter::Iterator::flatten" and len(args) == 1:
                     return mk("iteradapt", ("flatten",), (a0, sym.tup([])))
+            if name == "std::iter::Iterator::nth" and len(args) == 2 and tag(a0) == "call" and str(payload(a0)[0]) == "std::iter::Iterator::rev" \
+                    and kids(a0) and tag(kids(a0)[0]) == "call" and str(payload(kids(a0)[0])[0]).endswith("<impl [T]>::iter") and len(kids(kids(a0)[0])) == 1:
+                # `list.iter().rev().nth(k)`: the element k places before the last one (None when the list is shorter);
+                # integer conversions of k (`usize::try_from(k).ok()?`, `k as usize`) are views of the same number
+                lst = kids(kids(a0)[0])[0]
+                k = args[1]
+                for _ in range(4):
+                    if tag(k) == "unwrap":
+                        k = kids(k)[0]
+                    elif tag(k) == "call" and kids(k) and str(payload(k)[0]) in ("std::result::Result::ok", "std::convert::TryFrom::try_from", "std::convert::TryInto::try_into", "std::convert::From::from", "std::convert::Into::into"):
+                        k = kids(k)[0]
+                    elif tag(k) == "cast" and kids(k):
+                        k = kids(k)[0]
+                    else:
+                        break
+                return sym.call("list::nth_back", [lst, k], "", 0)
             if name in PURE_LIB:
                 return sym.op(PURE_LIB[name], *args)
             if name == "std::boxed::Box::new_uninit":
